@@ -166,3 +166,15 @@ func CopyDir(src, dst string) {
 		panic(err)
 	}
 }
+
+// KeyByAddr returns the deterministic key whose address is addr (nil if no such key was derived yet).
+func KeyByAddr(addr string) *Key {
+	keyMu.Lock()
+	defer keyMu.Unlock()
+	for _, k := range keyCache {
+		if k.Addr.String() == addr {
+			return k
+		}
+	}
+	return nil
+}
